@@ -428,7 +428,17 @@ ESCAPES_VALID_EVERYWHERE = {"\\\\", '\\"', "\\n", "\\r", "\\t", "\\a", "\\b", "\
 
 def _escape_table(m: Any, target: Any) -> Optional[Dict[str, str]]:
     """char -> emitted escape sequence, when the sanitizer is table driven."""
-    for n in ast.walk(target.node):
+    # the table as a module-level constant, possibly wrapped for str.translate
+    mod_t = m.mods.get(target.rel)
+    nodes: List[ast.AST] = list(ast.walk(target.node))
+    if mod_t is not None:
+        for nm in [x for x in ast.walk(target.node) if isinstance(x, ast.Name) and isinstance(x.ctx, ast.Load)]:
+            v_ = mod_t.assigns.get(nm.id)
+            if isinstance(v_, ast.Call) and src_of(v_.func) in ("str.maketrans", "dict") and len(v_.args) == 1:
+                v_ = v_.args[0]
+            if isinstance(v_, ast.Dict):
+                nodes.append(v_)
+    for n in nodes:
         if isinstance(n, ast.Dict) and n.keys and all(isinstance(k, ast.Constant) and isinstance(v, ast.Constant) for k, v in zip(n.keys, n.values)):
             return {k.value: v.value for k, v in zip(n.keys, n.values)}
         if isinstance(n, ast.DictComp) and len(n.generators) == 1:
